@@ -373,7 +373,10 @@ def run_pipeline(ctx, model):
 
 def run_href(ctx, model):
     """Called by harness/c07_markup.py with the extracted markup model."""
-    hmodel = ctx.model('href')
+    ok = ctx.build(['props/Href.vo', 'run/HrefRun.vo'])
+    if ok:
+        ctx.obligations('props/Href.v')
+    hmodel = ctx.model('href') if ok else None
     if hmodel is not None:
         run_matchers(ctx, hmodel)
         run_insert(ctx, hmodel)
